@@ -64,7 +64,8 @@ def main():
             },
             "detection": {
                 "verif_commit": commit,
-                "how": "patch applied to a scratch copy of /repo, every quick check run with VERIF_REPO pointing at it",
+                "how": "patch applied to a scratch copy of /repo, the listed quick checks run with VERIF_REPO pointing at it",
+                "checks_run": sorted(checks),
                 "caught_by": caught,
                 "own_property_check_reports_it": rec["property"] in caught,
                 "first_violation_line": {c: (v.get("violations") or [""])[0] for c, v in checks.items() if v.get("rc") == 1},
